@@ -62,6 +62,11 @@ def gen_case(rng, mode=None, depth=None):
             return h, o, 'onebad', i
         mode = 'viol'
     h = H.gen_hint(rng, depth or rng.choice([1, 2, 2, 3]))
+    if rng.random() < 0.05:
+        # validator focus: Annotated[Node, expression over attribute chains] against Node chains of depth 1-4 (fast path and
+        # explanation path evaluate the same generated expression: they must agree with each other)
+        h = {'k': 'ann', 'a': [{'k': 'cls', 'n': 'Node'}], 'v': [H.gen_node_validator(rng, rng.choice([2, 3, 3, 4]))]}
+        return h, {'o': 'inst', 'c': 'Node', 'd': rng.randint(1, 4), 'v': rng.choice([0, 1, 2])}, 'any', None
     o = None
     where = None
     try:
